@@ -25,7 +25,7 @@ natively and running the repository's tests.
 The script also writes
   <out>/verif_defaults.h   `#ifndef X / #define X / #endif` for every token
   <out>/verif_points.json  the list of tokens per file
-Exit status 3 on any parse irregularity (unbalanced braces, unbraced loop body):
+Exit status 3 on any parse irregularity (unbalanced braces):
 the callers treat that as "extraction break" (UNDECIDED), never as violation.
 """
 import json
@@ -200,11 +200,15 @@ def instrument_text(text, fname):
                 raise Break("%s: loop keyword without ( in %s" % (fname, name))
             q = match_forward(body, p, "(", ")")
             b = skip_ws(body, q + 1)
-            if b >= len(body) or body[b] != "{":
-                raise Break("%s: unbraced loop body in %s" % (fname, name))
-            e = match_forward(body, b, "{", "}")
             nloop += 1
             tag = "%s_%d" % (name, nloop)
+            if b >= len(body) or body[b] != "{":
+                # unbraced loop body (not the repository's style, but a change may introduce one):
+                # only the loop-contract point can be offered; no ghost statement points
+                inserts.append((lb + q + 1, 0, " VL_%s " % tag))
+                points += ["VL_" + tag]
+                continue
+            e = match_forward(body, b, "{", "}")
             inserts.append((lb + kw, 1, "VP_%s " % tag))
             inserts.append((lb + q + 1, 0, " VL_%s " % tag))
             inserts.append((lb + b + 1, 0, " VT_%s " % tag))
